@@ -151,6 +151,7 @@ class STensor(object):
         self.deps = frozenset()      # ids of tracked leaves this value is differentiably derived from
         self.grad_cut = False        # value passed through a non-differentiable step
         self.prov = frozenset()      # provenance labels: which marked inputs this value was computed from (any data flow)
+        self.cost = 1                # size of the expression DAG behind the value (used to avoid evaluating huge terms for truth tests)
         self.ghost = {}
         self.stale = False
         self.tid = next(_ids)
@@ -278,10 +279,13 @@ def derive(out, *ins, differentiable=True, view_of=None):
     deps = frozenset()
     cut = False
     prov = out.prov
+    cost = 1
     for t in ins:
         if isinstance(t, STensor):
             prov = prov | t.prov
+            cost += t.cost
     out.prov = prov
+    out.cost = cost
     for t in ins:
         if isinstance(t, STensor):
             d = t.deps
